@@ -46,6 +46,7 @@ fn history<Q: Rep>(tc0: TC<Q>, g: &mut SplitMix64, t_total: usize, sf: usize, mf
     let mut energy_b = vec![0.0f64; n];
     let (mut remaining, mut tsw, mut tsa) = (t_total, sf, mf);
     let mut nsw = 0usize;
+    let mut hist = hist_of(n);
     let mut failed: Option<String> = None;
     while remaining > 0 {
         let t = tsa.min(tsw).min(remaining);
@@ -72,7 +73,7 @@ fn history<Q: Rep>(tc0: TC<Q>, g: &mut SplitMix64, t_total: usize, sf: usize, mf
         remaining -= t;
         if tsw == 0 {
             let bis = bisect_every > 0 && nsw % bisect_every == 0;
-            match step_case(&b, g.next(), bis) {
+            match step_case(&b, g.next(), bis, &mut hist) {
                 Ok((next, words)) => {
                     b = next;
                     let l2 = new_log();
@@ -232,7 +233,13 @@ fn mode_histories(seed: u64, thorough: bool) {
 fn main() {
     quiet_panics();
     let a = args();
-    let r = catch(|| mode_histories(a.seed, a.thorough));
+    let r = catch(|| {
+        if a.mode == "grow" {
+            mode_grow(a.seed ^ 0x505, a.thorough)
+        } else {
+            mode_histories(a.seed, a.thorough)
+        }
+    });
     if let Err(e) = r {
         emit(true, "crash histories", "x", Some(Err(format!("harness or library panicked outside a guarded call: {}", e))));
     }
